@@ -12,7 +12,7 @@ from ..canon import canon
 ID = "C15"
 RULE = (
     "exhaustive as the property states: 12 months x {int, decimal strings with 0-2 leading zeros, all 8 case variants of the abbreviation, all "
-    "2^n case variants of the full name} x 3 middlewares x all 9 ordered pairs, in-place and copy mode, fresh and long-lived instances; plus "
+    "2^n case variants of the full name} x 3 middlewares x all 9 ordered pairs, all 27 chains of three on the same library object, apply-edit-apply, in-place and copy mode, fresh and long-lived instances; plus "
     "non-month values (out-of-range numbers, enclosed text, near-miss words, empty, None, list, float, no month field) which must come back "
     "identical, and for the no-exception clause a Unicode alphabet (non-ASCII digits, one code point per general category, 5000-digit string, "
     "NUL, surrogates). Non-trivial = month spelling (distinct by value and middleware pair)."
@@ -149,6 +149,50 @@ def check_month(m, acc):
                     )
 
 
+def check_chains(m, acc):
+    """Chains of three middlewares applied to the SAME library object(s), as a stack would: the last one decides,
+    whatever ran before (metadata left on the entry by earlier stages must not matter)."""
+    reps = [m, str(m), "0" + str(m), ABBR[m - 1], ABBR[m - 1].upper(), FULL[m - 1], FULL[m - 1].upper(), FULL[m - 1].lower()]
+    for v in reps:
+        for inplace in (True, False):
+            for chain in itertools.product(MWS, repeat=3):
+                names = [n for n, _ in chain]
+                case = {"value": v, "chain": names, "inplace": inplace}
+                acc.trace(3)
+                acc.case(nontrivial_key=("chain", repr(v), tuple(names), inplace))
+                lib = mk_lib(v)
+                try:
+                    for _, M in chain:
+                        lib = M(allow_inplace_modification=inplace).transform(lib)
+                    res = lib.blocks[0].fields_dict["month"].value
+                except Exception as ex:
+                    acc.violation({"oracle": "never_raises", "exception": type(ex).__name__, "middleware": "chain"}, {"case": case, "observed": repr(ex)[:200], "expected": "no exception"})
+                    continue
+                exp = expected(names[-1], m)
+                acc.step(("v", repr(v)), ("chain", tuple(names)), canon(res))
+                if res != exp or type(res) is not type(exp):
+                    acc.violation(
+                        {"oracle": "chain_last_one_decides", "last": names[-1]},
+                        {"case": case, "observed": repr(res), "expected": repr(exp)},
+                    )
+            # the same instance applied, the month edited by the user, applied again
+            for name, M in MWS:
+                inst = M(allow_inplace_modification=inplace)
+                lib = inst.transform(mk_lib(v))
+                m2 = m % 12 + 1
+                lib.blocks[0].fields_dict["month"].value = ABBR[m2 - 1].upper()
+                acc.trace(2)
+                acc.case(nontrivial_key=("edit", repr(v), name, inplace))
+                try:
+                    res = inst.transform(lib).blocks[0].fields_dict["month"].value
+                except Exception as ex:
+                    acc.violation({"oracle": "never_raises", "exception": type(ex).__name__, "middleware": name}, {"case": {"value": v, "edit_then": name}, "observed": repr(ex)[:200], "expected": "no exception"})
+                    continue
+                exp = expected(name, m2)
+                if res != exp or type(res) is not type(exp):
+                    acc.violation({"oracle": "apply_edit_apply", "middleware": name}, {"case": {"value": v, "edit_then": name, "inplace": inplace}, "observed": repr(res), "expected": repr(exp)})
+
+
 def check_unchanged(values, acc, exception_only=False):
     for v in values:
         for inplace in (True, False):
@@ -219,6 +263,7 @@ def mk_nofield():
 def run_shard(shard, tier, acc):
     if shard[0] == "month":
         check_month(shard[1], acc)
+        check_chains(shard[1], acc)
     elif shard[0] == "non":
         check_unchanged(NON_MONTHS, acc)
     elif shard[0] == "unicode":
